@@ -5,6 +5,7 @@
   probabilities and all seeds.
 -/
 import TuModel.Props.C10
+import TuModel.Lemmas.CwMatchL
 namespace Tu.C14
 open Tu Tu.C10
 
@@ -150,5 +151,254 @@ theorem cw_length_bounds (s : List (List Nat)) (ds : List (Bool × Bool)) (h : d
 example : corruptWsCl [[97], [98], sp, [99]] [(false, true), (false, true), (true, false), (false, true)]
     = [[97], sp, [98], [99]] := by decide
 example : CleanB [[97], [98], sp, [99]] = true := by decide
+
+
+/-! ## the relational acceptance test `cwMatch` / `cwAllowed` accepts exactly the outputs of the model
+
+`cwMatch f s true false out` is what the correspondence check evaluates (Drive/TextD.lean).  The theorems
+below say that it accepts `out` iff `out` is the output of `corruptWsCl s ds` for a decision list `ds`
+(one decision per character) every entry of which the flags allow.
+
+`cwMatch_sound` for ARBITRARY flags is false: for the inconsistent flags
+`⟨mayDel := true, mustDel := false, mayIns := false, mustIns := true⟩` ("insertion is impossible and
+certain") no decision is allowed at all, yet `cwMatch` accepts `[]` for the text `[[32]]` (the examples
+after `cwMatch_sound_partial`).  The statement is true exactly for flags with "certain ⇒ possible"
+(`CwFlags.consistent`, equivalent to "some decision is allowed", `CwFlags.consistent_iff`), which
+`CwFlags.ofPermille` always produces, so `cwAllowed_iff` holds as stated, without extra hypothesis. -/
+
+/-- soundness, generalised over the position flags `first prevWs` -/
+theorem cwMatchAux_sound (f : CwFlags) (hf : f.consistent = true) (s : List (List Nat))
+    (first prevWs : Bool) (out : List Nat) (h : cwMatch f s first prevWs out = true) :
+    ∃ ds : List (Bool × Bool), ds.length = s.length ∧ (∀ d ∈ ds, f.allows d = true) ∧
+      (corruptWsAux s ds first prevWs).flatten = out :=
+  Tu.cwMatchAux_sound f hf s first prevWs out h
+
+/-- completeness, generalised over the position flags `first prevWs` (arbitrary flags) -/
+theorem cwMatchAux_complete (f : CwFlags) (s : List (List Nat)) (ds : List (Bool × Bool))
+    (first prevWs : Bool) (hl : ds.length = s.length) (ha : ∀ d ∈ ds, f.allows d = true) :
+    cwMatch f s first prevWs (corruptWsAux s ds first prevWs).flatten = true :=
+  Tu.cwMatchAux_complete f s ds first prevWs hl ha
+
+/- The statement as requested, FALSE for inconsistent flags (counterexample below):
+
+theorem cwMatch_sound (f : CwFlags) (s : List (List Nat)) (out : List Nat)
+    (h : cwMatch f s true false out = true) :
+    ∃ ds : List (Bool × Bool), ds.length = s.length ∧ (∀ d ∈ ds, f.allows d = true) ∧
+      (corruptWsCl s ds).flatten = out
+-/
+
+/-- soundness: an accepted output is the output of `corruptWsCl` for some decision list the flags allow;
+for consistent flags (`mustDel → mayDel`, `mustIns → mayIns`) -/
+theorem cwMatch_sound_partial (f : CwFlags) (hf : f.consistent = true) (s : List (List Nat))
+    (out : List Nat) (h : cwMatch f s true false out = true) :
+    ∃ ds : List (Bool × Bool), ds.length = s.length ∧ (∀ d ∈ ds, f.allows d = true) ∧
+      (corruptWsCl s ds).flatten = out :=
+  Tu.cwMatchAux_sound f hf s true false out h
+
+/-- the counterexample to the unrestricted soundness statement: these flags allow no decision … -/
+example : ∀ d : Bool × Bool, (CwFlags.mk true false false true).allows d = false := by
+  rintro ⟨a, b⟩; cases a <;> cases b <;> decide
+/-- … but the acceptance test accepts an output for a one-character text -/
+example : cwMatch (CwFlags.mk true false false true) [[32]] true false [] = true := by decide
+example : (CwFlags.mk true false false true).consistent = false := by decide
+/-- the consistency hypothesis is necessary as soon as the text is not empty: soundness for one non-empty
+text already implies it -/
+theorem cwMatch_sound_needs_consistent (f : CwFlags) (s : List (List Nat)) (hs : s ≠ [])
+    (out : List Nat) (h : cwMatch f s true false out = true)
+    (hsound : ∃ ds : List (Bool × Bool), ds.length = s.length ∧ (∀ d ∈ ds, f.allows d = true) ∧
+      (corruptWsCl s ds).flatten = out) : f.consistent = true := by
+  obtain ⟨ds, hl, ha, _⟩ := hsound
+  cases ds with
+  | nil => cases s with
+    | nil => exact absurd rfl hs
+    | cons _ _ => simp at hl
+  | cons d ds => exact (CwFlags.consistent_iff f).mpr ⟨d, ha d List.mem_cons_self⟩
+
+/-- completeness: every output of the function model under allowed decisions is accepted -/
+theorem cwMatch_complete (f : CwFlags) (s : List (List Nat)) (ds : List (Bool × Bool))
+    (hl : ds.length = s.length) (ha : ∀ d ∈ ds, f.allows d = true) :
+    cwMatch f s true false (corruptWsCl s ds).flatten = true :=
+  Tu.cwMatchAux_complete f s ds true false hl ha
+
+/-- acceptance = producibility, for consistent flags -/
+theorem cwMatch_iff (f : CwFlags) (hf : f.consistent = true) (s : List (List Nat)) (out : List Nat) :
+    cwMatch f s true false out = true ↔
+      ∃ ds : List (Bool × Bool), ds.length = s.length ∧ (∀ d ∈ ds, f.allows d = true) ∧
+        (corruptWsCl s ds).flatten = out := by
+  constructor
+  · exact cwMatch_sound_partial f hf s out
+  · rintro ⟨ds, hl, ha, rfl⟩
+    exact cwMatch_complete f s ds hl ha
+
+/-- the two together, for the probabilities of a request (no extra hypothesis: the flags of two
+probabilities are always consistent) -/
+theorem cwAllowed_iff (iw dw : Nat) (s : List (List Nat)) (out : List Nat) :
+    cwAllowed iw dw s out = true ↔
+      ∃ ds : List (Bool × Bool), ds.length = s.length ∧
+        (∀ d ∈ ds, (CwFlags.ofPermille iw dw).allows d = true) ∧
+        (corruptWsCl s ds).flatten = out :=
+  cwMatch_iff _ (CwFlags.ofPermille_consistent iw dw) s out
+
+/-! ### the property theorems, transferred to every accepted output -/
+
+/-- every accepted output of a clean text is the flattening of a clustered text `corruptWsCl s ds` that
+has the same non-whitespace clusters, is clean again, and from which `operations` / `repair` recover
+the original (`cw_nonws`, `cw_Clean`, `cw_recover` for that `ds`) -/
+theorem cwAllowed_props (iw dw : Nat) (s : List (List Nat)) (out : List Nat)
+    (hc : CleanB s = true) (h : cwAllowed iw dw s out = true) :
+    ∃ ds : List (Bool × Bool), ds.length = s.length ∧
+      (∀ d ∈ ds, (CwFlags.ofPermille iw dw).allows d = true) ∧
+      (corruptWsCl s ds).flatten = out ∧
+      removeWsCl (corruptWsCl s ds) = removeWsCl s ∧
+      CleanB (corruptWsCl s ds) = true ∧
+      ∃ o, wsOps (corruptWsCl s ds) s = some o ∧ o.length = (corruptWsCl s ds).length ∧
+        repairCl (corruptWsCl s ds) o = some s := by
+  obtain ⟨ds, hl, ha, he⟩ := (cwAllowed_iff iw dw s out).mp h
+  exact ⟨ds, hl, ha, he, cw_nonws s ds hl, cw_Clean s ds hl hc, cw_recover s ds hl hc⟩
+
+/-- the part of `cwAllowed_props` that needs no cleanness: same non-whitespace clusters -/
+theorem cwAllowed_nonws (iw dw : Nat) (s : List (List Nat)) (out : List Nat)
+    (h : cwAllowed iw dw s out = true) :
+    ∃ cl : List (List Nat), cl.flatten = out ∧ removeWsCl cl = removeWsCl s := by
+  obtain ⟨ds, hl, _, he⟩ := (cwAllowed_iff iw dw s out).mp h
+  exact ⟨corruptWsCl s ds, he, cw_nonws s ds hl⟩
+
+/-- on code points: the function model changes only whitespace code points -/
+theorem cwAux_nonws_cp (s : List (List Nat)) (ds : List (Bool × Bool)) (first prevWs : Bool)
+    (h : ds.length = s.length) :
+    (corruptWsAux s ds first prevWs).flatten.filter (fun x => !isWsCp x) =
+      s.flatten.filter (fun x => !isWsCp x) := by
+  induction s generalizing ds first prevWs with
+  | nil => rw [corruptWsAux_nil]
+  | cons c cs ih =>
+    cases ds with
+    | nil => simp at h
+    | cons d ds =>
+      have hl : ds.length = cs.length := by simpa using h
+      by_cases hw : isWsCl c = true
+      · have hcf : c.filter (fun x => !isWsCp x) = [] := by
+          rw [List.filter_eq_nil_iff]
+          intro x hx
+          have := List.all_eq_true.mp hw x hx
+          simp [this]
+        rw [corruptWsAux_ws cs d ds first prevWs hw]
+        cases d.1 <;> simp [ih ds false true hl, hcf]
+      · have hw' : isWsCl c = false := by simpa using hw
+        rw [corruptWsAux_nonws cs d ds first prevWs hw']
+        have hsp : sp.filter (fun x => !isWsCp x) = [] := by decide
+        split <;> simp [ih ds false false hl, hsp]
+
+/-- every accepted output has exactly the non-whitespace code points of the text, in order (a statement
+about `out` itself; no hypothesis on the text) -/
+theorem cwAllowed_nonws_cp (iw dw : Nat) (s : List (List Nat)) (out : List Nat)
+    (h : cwAllowed iw dw s out = true) :
+    out.filter (fun x => !isWsCp x) = s.flatten.filter (fun x => !isWsCp x) := by
+  obtain ⟨ds, hl, _, rfl⟩ := (cwAllowed_iff iw dw s out).mp h
+  exact cwAux_nonws_cp s ds true false hl
+
+theorem sublist_flatten {α} {l₁ l₂ : List (List α)} (h : List.Sublist l₁ l₂) :
+    List.Sublist l₁.flatten l₂.flatten := by
+  induction h with
+  | slnil => exact List.Sublist.refl _
+  | cons a _ ih => simpa using List.sublist_append_of_sublist_right ih
+  | cons_cons a _ ih => simpa using List.Sublist.append (List.Sublist.refl a) ih
+
+/-- with delete probability 0 every accepted output comes from a decision list that never deletes, so
+(`cw_no_delete`) the text is a subsequence of the output: nothing disappears -/
+theorem cwAllowed_no_delete (iw : Nat) (s : List (List Nat)) (out : List Nat)
+    (h : cwAllowed iw 0 s out = true) :
+    ∃ ds : List (Bool × Bool), ds.length = s.length ∧ (∀ d ∈ ds, d.1 = false) ∧
+      (corruptWsCl s ds).flatten = out ∧ List.Sublist s (corruptWsCl s ds) := by
+  obtain ⟨ds, hl, ha, he⟩ := (cwAllowed_iff iw 0 s out).mp h
+  have hd : ∀ d ∈ ds, d.1 = false := by
+    intro d hd
+    have := ha d hd
+    simp only [CwFlags.allows, CwFlags.ofPermille, Bool.and_eq_true, Bool.or_eq_true] at this
+    rcases this.1.1.1 with h1 | h1
+    · simpa using h1
+    · simp at h1
+  exact ⟨ds, hl, hd, he, cw_no_delete s ds hl hd⟩
+
+theorem cwAllowed_no_delete_sublist (iw : Nat) (s : List (List Nat)) (out : List Nat)
+    (h : cwAllowed iw 0 s out = true) : List.Sublist s.flatten out := by
+  obtain ⟨ds, _, _, rfl, hs⟩ := cwAllowed_no_delete iw s out h
+  exact sublist_flatten hs
+
+/-- with insert probability 0 every accepted output comes from a decision list that never inserts, so
+(`cw_no_insert`) the output is a subsequence of the text: nothing appears -/
+theorem cwAllowed_no_insert (dw : Nat) (s : List (List Nat)) (out : List Nat)
+    (h : cwAllowed 0 dw s out = true) :
+    ∃ ds : List (Bool × Bool), ds.length = s.length ∧ (∀ d ∈ ds, d.2 = false) ∧
+      (corruptWsCl s ds).flatten = out ∧ List.Sublist (corruptWsCl s ds) s := by
+  obtain ⟨ds, hl, ha, he⟩ := (cwAllowed_iff 0 dw s out).mp h
+  have hd : ∀ d ∈ ds, d.2 = false := by
+    intro d hd
+    have := ha d hd
+    simp only [CwFlags.allows, CwFlags.ofPermille, Bool.and_eq_true, Bool.or_eq_true] at this
+    rcases this.1.2 with h1 | h1
+    · simpa using h1
+    · simp at h1
+  exact ⟨ds, hl, hd, he, cw_no_insert s ds hd⟩
+
+theorem cwAllowed_no_insert_sublist (dw : Nat) (s : List (List Nat)) (out : List Nat)
+    (h : cwAllowed 0 dw s out = true) : List.Sublist out s.flatten := by
+  obtain ⟨ds, _, _, rfl, hs⟩ := cwAllowed_no_insert dw s out h
+  exact sublist_flatten hs
+
+/-- with delete probability 1 (and dually insert probability 1) every decision of the witness deletes
+(inserts): the "must" flags are not vacuous -/
+theorem cwAllowed_must (iw dw : Nat) (s : List (List Nat)) (out : List Nat)
+    (h : cwAllowed iw dw s out = true) :
+    ∃ ds : List (Bool × Bool), ds.length = s.length ∧ (corruptWsCl s ds).flatten = out ∧
+      (1000 ≤ dw → ∀ d ∈ ds, d.1 = true) ∧ (1000 ≤ iw → ∀ d ∈ ds, d.2 = true) := by
+  obtain ⟨ds, hl, ha, he⟩ := (cwAllowed_iff iw dw s out).mp h
+  refine ⟨ds, hl, he, ?_, ?_⟩
+  · intro hdw d hd
+    have := ha d hd
+    simp only [CwFlags.allows, CwFlags.ofPermille, Bool.and_eq_true, Bool.or_eq_true] at this
+    rcases this.1.1.2 with h1 | h1
+    · simp at h1; omega
+    · exact h1
+  · intro hiw d hd
+    have := ha d hd
+    simp only [CwFlags.allows, CwFlags.ofPermille, Bool.and_eq_true, Bool.or_eq_true] at this
+    rcases this.2 with h1 | h1
+    · simp at h1; omega
+    · exact h1
+
+/-! non-vacuity of the acceptance test: the clean two-word text "ab cd" -/
+example : CleanB [[97], [98], sp, [99], [100]] = true := by decide
+/-- identity -/
+example : cwAllowed 500 500 [[97], [98], sp, [99], [100]] [97, 98, 32, 99, 100] = true := by decide
+/-- a space inserted before `b` -/
+example : cwAllowed 500 500 [[97], [98], sp, [99], [100]] [97, 32, 98, 32, 99, 100] = true := by decide
+/-- the space deleted -/
+example : cwAllowed 500 500 [[97], [98], sp, [99], [100]] [97, 98, 99, 100] = true := by decide
+/-- refused: a double space (no insertion directly after a space of the original) -/
+example : cwAllowed 500 500 [[97], [98], sp, [99], [100]] [97, 98, 32, 32, 99, 100] = false := by decide
+/-- refused: a space before the first character -/
+example : cwAllowed 500 500 [[97], [98], sp, [99], [100]] [32, 97, 98, 32, 99, 100] = false := by decide
+/-- refused: a changed non-whitespace character -/
+example : cwAllowed 500 500 [[97], [98], sp, [99], [100]] [97, 98, 32, 99, 101] = false := by decide
+/-- insert probability 0 refuses an inserted space -/
+example : cwAllowed 0 500 [[97], [98], sp, [99], [100]] [97, 32, 98, 32, 99, 100] = false := by decide
+/-- delete probability 0 refuses a deleted space -/
+example : cwAllowed 500 0 [[97], [98], sp, [99], [100]] [97, 98, 99, 100] = false := by decide
+/-- insert probability 1 refuses an output that lacks a mandatory insertion … -/
+example : cwAllowed 1000 500 [[97], [98], sp, [99], [100]] [97, 98, 32, 99, 100] = false := by decide
+example : cwAllowed 1000 500 [[97], [98], sp, [99], [100]] [97, 32, 98, 32, 99, 100] = false := by decide
+/-- … and accepts the ones with all of them (space kept / deleted) -/
+example : cwAllowed 1000 500 [[97], [98], sp, [99], [100]] [97, 32, 98, 32, 99, 32, 100] = true := by decide
+example : cwAllowed 1000 500 [[97], [98], sp, [99], [100]] [97, 32, 98, 99, 32, 100] = true := by decide
+/-- delete probability 1 refuses a kept space -/
+example : cwAllowed 500 1000 [[97], [98], sp, [99], [100]] [97, 98, 32, 99, 100] = false := by decide
+/-- the witness decision list of the iff for the accepted output with an inserted space -/
+example : corruptWsCl [[97], [98], sp, [99], [100]]
+    [(false, false), (false, true), (false, false), (false, false), (false, false)]
+    = [[97], sp, [98], sp, [99], [100]] := by decide
+/-- the empty cluster counts as whitespace in the model; test and function model agree on it -/
+example : cwAllowed 500 500 [[], [97]] [97] = true := by decide
+example : cwAllowed 500 500 [sp, [97], [98]] [97, 32, 98] = true := by decide
+example : cwAllowed 500 500 [sp, [97], [98]] [32, 32, 97, 98] = false := by decide
 
 end Tu.C14
